@@ -395,6 +395,10 @@ func (e *eng) Op(f []string, line string, out *hx.Out) {
 		out.P("P:C11,C12 ok")
 	case f[0] == "begin" && len(f) == 2:
 		v, ok := e.versions[f[1]]
+		if !ok && strings.HasPrefix(f[1], "c") {
+			// a transaction begun from the tree returned by Txn.Clone()
+			v, ok = e.clones[f[1][1:]]
+		}
 		if !ok || e.live != nil {
 			out.P("E badref")
 			return
